@@ -168,7 +168,9 @@ impl Manager {
         #[cfg(feature = "graceful-shutdown")]
         {
             // - 1 at the end because fetch returns the old value.
-            let connections = self.connections.fetch_sub(1, Ordering::AcqRel) - 1;
+            // `SeqCst` here and on the flag below, and on the opposite pair in `shutdown`:
+            // one of the two has to see the other's write, else nobody starts the shutdown.
+            let connections = self.connections.fetch_sub(1, Ordering::SeqCst) - 1;
             verif_point!("remove:after-sub", connections.max(0));
             if connections < 0 {
                 warn!(
@@ -179,7 +181,7 @@ impl Manager {
             }
             if connections <= 0 {
                 verif_point!("remove:before-flag", 0);
-                let shutdown = self.shutdown.load(Ordering::Acquire);
+                let shutdown = self.shutdown.load(Ordering::SeqCst);
                 if shutdown {
                     debug!("There are no connections. Shutting down.");
                     #[allow(clippy::used_underscore_items)] // cfg
@@ -258,7 +260,8 @@ impl Manager {
             "Initiating shutdown. Handover path: {:?}",
             self.handover_socket_path
         );
-        self.shutdown.store(true, Ordering::Release);
+        // see `remove_connection` for the ordering
+        self.shutdown.store(true, Ordering::SeqCst);
         verif_point!("shutdown:after-store", 0);
         self.inititate_channel
             .0
@@ -271,7 +274,7 @@ impl Manager {
         }
 
         verif_point!("shutdown:before-count", 0);
-        if self.connections.load(Ordering::Acquire) <= 0 {
+        if self.connections.load(Ordering::SeqCst) <= 0 {
             #[allow(clippy::used_underscore_items)] // cfg
             self._shutdown();
         }
